@@ -579,9 +579,6 @@ func (w *World) M07(rec *ScanRecord) []Violation {
 			continue
 		}
 		un := gr.UntaintedNow()
-		if len(un) == 0 && len(gr.Increase) == 0 {
-			continue
-		}
 		// (i) no cloud increase while a reusable node stays tainted
 		var left []*v1.Node
 		for _, n := range gr.GV.Tainted {
@@ -625,6 +622,12 @@ func (w *World) M07(rec *ScanRecord) []Violation {
 			}
 			if K != wantK {
 				out = append(out, viol("C07", "recover-untaint-count", "group %d: need %d, %d tainted, untainted %d", gr.G, N, P, K))
+			}
+			// a group past its cool-down that still behaves as locked breaks C02's release half
+			if K == 0 && nreq == 0 && (P > 0 || B-cur > 0) && !gr.LockT0.IsZero() && !rec.Restarted && gr.K8sWrites+gr.AWSWrites == 0 {
+				o := &w.Cfg.Groups[gr.G].Opts
+				out = append(out, viol("C02", "lock-outlives-cooldown", "group %d: cool-down %v ended at %v, scan at %v below minimum (untainted %d < %d) still takes no action", gr.G,
+					o.ScaleUpCoolDownPeriodDuration(), gr.LockT0.Add(o.ScaleUpCoolDownPeriodDuration()).UTC().Format(time.RFC3339Nano), gr.Start.UTC().Format(time.RFC3339Nano), len(gr.GV.Untainted), gr.EffMin))
 			}
 			rem := N - K
 			if rem > 0 {
